@@ -47,13 +47,17 @@ FPREFIX = {"rf", "rF", "Rf", "RF", "Fr", "q1", "lc", "rc"}   # the prefix symbol
 # identifiers spelled like soft keywords (match, type; case in thorough) or "_" are ordinary names: heads of attribute
 # chains and calls; a hard keyword (not) before a parenthesised primary is not part of it
 SOFTKW = {"smatch", "stype", "us", "knot", "dot", "lp", "rp"}
+# characters str.splitlines() treats as line boundaries but Python does not: form feed as a blank in code
+# (page-break line, leading form feed), the others inside strings and comments; lines after them must
+# still start where the tokenizer says
+LINESEP = {"a", "ffd", "nel", "ls", "vt", "q1", "hash", "nl", "sp"}
 
 
 def slices(tier):
     """(name, symbols, max symbols per text, max frame nesting)"""
     quick = [("strings", STRINGS, 5, 3), ("brackets", BRACKETS, 5, 3), ("words", WORDS, 5, 3),
              ("chains", CHAINS, 6, 3), ("fnest", FNEST, 7, 4), ("fprefix", FPREFIX, 6, 3),
-             ("softkw", SOFTKW, 6, 3)]
+             ("softkw", SOFTKW, 6, 3), ("linesep", LINESEP, 5, 3)]
     if tier == "quick":
         return quick
     return quick + [
@@ -64,6 +68,7 @@ def slices(tier):
         ("prefixes", {"r", "b", "f", "u", "R", "B", "F", "q1", "q2", "t2", "a", "bs", "nl"}, 5, 3),
         ("layout", {"a", "ue", "tab", "sp", "nl", "semi", "cont", "hash", "eq", "lp", "rp", "t1"}, 6, 3),
         ("softkw6", {"smatch", "scase", "stype", "us", "knot", "a", "dot", "lp", "rp", "sp"}, 6, 3),
+        ("linesep6", {"a", "ffd", "nel", "ps", "fsep", "q1", "t1", "hash", "nl", "lp", "rp"}, 6, 3),
     ]
 
 
@@ -346,7 +351,7 @@ def main(tier):
     counts = {"names": 0, "regions": 0, "stmts": 0}
     samples = []
     # quick: all (small) models side by side; thorough: in groups, each compared before the next is generated
-    groups = [sl] if tier == "quick" else [sl[:7]] + [[x] for x in sl[7:]]
+    groups = [sl] if tier == "quick" else [sl[:8]] + [[x] for x in sl[8:]]
     for group in groups:
         out = {}
         threads = []
